@@ -138,7 +138,7 @@ def check_case(rng, stats):
         quant = quant + ["q_copy"]
     elif copy_kind == "qual_copy" and task == "classification":
         X["k_copy"] = ["cls" + str(v) for v in y.tolist()]; qual = qual + ["k_copy"]
-    cfg = selgen.gen_config(rng, task, quant, qual)
+    cfg = selgen.gen_config(rng, task, quant, qual, has_inf=bool(quant) and bool(np.isinf(X[quant].to_numpy(dtype=float)).any()))
     if copy_kind != "none":
         cfg["n_best"] = max(cfg["n_best"], 1)
     case = {"task": task, "cfg": {k: v for k, v in cfg.items() if k != "kw"}, "copy": copy_kind,
